@@ -454,6 +454,9 @@ func (w *qWorld) exec(op Op) {
 		if w.enforce["C08"] {
 			w.checkDataDir()
 		}
+		if w.enforce["C04"] {
+			w.checkLate()
+		}
 		return
 	case "stats":
 		w.settleIfBurst()
